@@ -102,6 +102,39 @@ pub fn run(em: &mut Emitter, rng: &mut Rng, thorough: bool) {
                 }
             }, true);
         }
+        // (b') inside a parent: read exactly the k values it contains and return, without
+        // polling for a further value - the parent's own end check (exhausted / end-of-contents)
+        // decides; also with fewer than all values (must fail), and with a damaged terminator
+        if ctx != Ctx::Top {
+            let n = forest.len();
+            for k in [n, n.saturating_sub(1)] {
+                let inner_ps: Vec<Prog> = (0..k).map(|_| Prog::Take { opt: false, kind: 0, exp: None, body: Body::Generic }).collect();
+                let ps = in_ctx(ctx, inner_ps);
+                let mut variants: Vec<Vec<u8>> = vec![data.clone()];
+                if ctx == Ctx::Indefinite {
+                    let l = data.len();
+                    for term in [vec![0x20u8, 0x00], vec![0x00, 0x01, 0x00], vec![0x00, 0x81, 0x00], vec![0x00, 0x80], vec![0x00], vec![], vec![0x01, 0x00], vec![0x00, 0x00, 0x00, 0x00]] {
+                        let mut v = data[..l - 2].to_vec(); v.extend(term); variants.push(v);
+                    }
+                }
+                for v in variants {
+                    let v2 = v.clone();
+                    prog_case(em, 201, mode, &ps, &v, move |obs| {
+                        // reference: the first value must be a well-formed SEQUENCE with exactly k children
+                        let exp = ref_first_value_len(mode, &v2).and_then(|n1| match ref_parse_seq(mode, &v2[..n1], Ctx::Top, 0) {
+                            Some((ts, used)) if used == n1 => match ts.as_slice() { [RTlv::Cons(id, kids)] if id == &[0x30] && kids.len() == k => Some(v2.len() - n1), _ => None },
+                            _ => None });
+                        match (obs.first(), exp) {
+                            (Some(0), Some(left)) => if obs[1] as usize == left { Oracle::Pass } else { Oracle::Fail("position-after-k-values".into()) },
+                            (Some(1), None) => Oracle::Pass,
+                            (Some(0), None) => Oracle::Fail("accepts-malformed".into()),
+                            (Some(1), Some(_)) => Oracle::Fail("rejects-well-formed".into()),
+                            _ => Oracle::Fail("panic".into()),
+                        }
+                    }, true);
+                }
+            }
+        }
         // (c) mode switch at a nested level: the subtree is read under the new mode
         if ctx != Ctx::Top {
             let m2 = rng.below(3) as u8;
